@@ -62,10 +62,16 @@ def base_library(i):
         return bibtexparser.parse_string(bigdocs.document(130, 1)[0] + "\n@article{Key0:x, dup = {d}}\n@broken{zz, a b}\n")
     if i == n + 6:  # bare (unenclosed) name values turned into lists; enclosing metadata present
         return bibtexparser.parse_string("@a{k, author = smith, editor = {A B and C D}, year = 1999, note = other}", append_middleware=[mw.SeparateCoAuthors()])
+    if i == n + 7:  # list / NameParts values in fields that the default name middlewares do not look at
+        wide = ("author", "bookauthor", "namea")
+        return bibtexparser.parse_string(
+            "@book{k, author = {A B and C D}, bookauthor = {E F and G H}, namea = {I J}, title = {T}}\n@misc{m, bookauthor = {K L}}",
+            append_middleware=[mw.SeparateCoAuthors(name_fields=wide), mw.SplitNameParts(name_fields=("author", "bookauthor"))],
+        )
     raise IndexError(i)
 
 
-NLIBS = len(DOCS) + 7
+NLIBS = len(DOCS) + 8
 
 
 def pool():
